@@ -862,11 +862,6 @@ func vc08Run(out *vOut, c vc08Case) {
 	})
 }
 
-func TestVerifC08Explore(t *testing.T) {
-	vc08Init()
-	vc08Explore(vEnvInt("VERIF_N", 3000))
-}
-
 func TestVerifC08(t *testing.T) {
 	vc08Init()
 	seed := uint64(vEnvInt("VERIF_SEED", 1))
@@ -899,6 +894,6 @@ func TestVerifC08(t *testing.T) {
 			per = 120000
 		}
 		per = vEnvInt("VERIF_FUZZ", per)
-		vc08FuzzStream(out, seed, per/len(vc08FuzzDecoders())*3+per/20)
+		vc08FuzzStream(out, seed, per)
 	}
 }
